@@ -150,6 +150,11 @@ Fixpoint shake0 (fuel : nat) (e : expr) : out expr :=
           | x, BOr, EBexp y BOr z => shake0 fu (EGroup BOr [x; y; z])
           | _, _, _ => Ok (EBexp l' s r')
           end
+      | EMatch k (EGroup s l) =>
+          (* fix D14: all() / of() count the members of the group they hold: the group stays, its
+             members are shaken *)
+          do l' <- mapM (fun x => shake0 fu x) l;
+          Ok (EMatch k (EGroup s l'))
       | EMatch k e' => do x <- shake0 fu e'; Ok (EMatch k x)
       | ENegate e' =>
           do x <- shake0 fu e';
